@@ -29,7 +29,7 @@ func init() {
 				"into the serve functions.",
 			NotCovered: "equality of payloads across transports, framing arithmetic, message contents; the DNSCrypt goroutines " +
 				"belong to the dnscrypt library.",
-			Rules: map[string]string{
+			Rules: map[string]string{"C01-R18": "the bytes of a received datagram stay the session's own until its response was written (buffer-lifetime rules shared with C06-R2)", "C01-R19": "Android metric-domain path: the pipeline serves a clone under the shared name; the response is made a reply to the client's own message (SetReply, replaceResp) before it is written, with or without answers",
 				"C01-R1": "acceptMsg decision table", "C01-R2": "serveDNS (undecodable input dropped) and serveDNSMsgInternal gate/effect tables",
 				"C01-R3": "at most one write event per ResponseWriter parameter on every path",
 				"C01-R4": "DoQ and DoH glue: one answer per request, from this request's recorder (SERVFAIL / HTTP 500 when nothing was written, HTTP 400 for undecodable requests)", "C01-R5": "defer handlePanicAndRecover dominates serving",
@@ -256,6 +256,7 @@ func runC01(c *an.Ctx) {
 	c.Floor("C01-R15", 5)
 	sharedPoolInitSweep(c, "C01-R15", "dnssvc/internal/mainmw.filteringContext", "filter/internal.Request", "filter/internal.Response")
 	c01Writers(c)
+	c01AndroidMetric(c)
 	// ---- R18: the bytes of a received datagram stay the session's own until the response was written (shared with C06-R2)
 	c.Floor("C01-R18", 2)
 	c06BufferLifetime(c, "C01-R18")
@@ -1079,6 +1080,91 @@ func c01JSONRequest(c *an.Ctx) {
 			}
 			if got := o.Mem[msg+".MsgHdr.CheckingDisabled"].String(); got != `flag("cd")` {
 				return "the CD flag from the cd parameter; got " + got
+			}
+			return ""
+		},
+	})
+}
+
+// c01AndroidMetric holds the table of the Android metric-domain path of the
+// pre-upstream middleware: the query is resolved under a shared replacement
+// name, so the response must be turned back into a reply to the client's own
+// message (ID and question through SetReply, answer names through replaceResp)
+// on every path that writes it, whatever the response contains.
+func c01AndroidMetric(c *an.Ctx) {
+	c.Floor("C01-R19", 1)
+	decide(c, "C01-R19", "dnssvc/internal/preupstream.(*Middleware).serveAndroidMetric", an.DecideCfg{
+		Dom: an.Domain{"serveerr": an.Bools, "writeerr": an.Bools},
+		OnCall: func(it *an.Interp, name string, args []an.AV) (an.AV, bool) {
+			errOr := func(feat, tag string) an.AV {
+				if it.Feature(feat).IsTrue() {
+					return an.NonNil(tag)
+				}
+				return an.Nil()
+			}
+			switch {
+			case strings.HasSuffix(name, "dnsmsg.Clone"):
+				return an.NonNil("clone(" + args[0].String() + ")"), true
+			case strings.HasSuffix(name, "internal.MakeNonWriter"):
+				return an.NonNil("nwrw(" + args[0].String() + ")"), true
+			case name == "p2.ServeDNS":
+				return errOr("serveerr", "serveErr"), true
+			case strings.HasSuffix(name, "NonWriterResponseWriter).Msg"):
+				return an.NonNil("resp"), true
+			case strings.HasSuffix(name, "dns.Msg).SetReply"):
+				return args[0], true
+			case strings.HasSuffix(name, ").replaceResp"):
+				return an.Nil(), true
+			case name == "p3.WriteMsg":
+				return errOr("writeerr", "writeErr"), true
+			case strings.HasSuffix(name, "errors.Annotate"):
+				return args[0], true
+			case name == "fmt.Errorf":
+				return an.NonNil("wrapped"), true
+			}
+			return an.AV{}, false
+		},
+		Expect: func(f an.Features, o an.AOutcome) string {
+			idx := func(n string) int {
+				for i, e := range o.Effects {
+					if e.Kind == "call" && e.Name == n {
+						return i
+					}
+				}
+				return -1
+			}
+			for _, e := range o.Effects {
+				if e.Kind == "store" && strings.Contains(e.Name, "Question") && !strings.HasPrefix(e.Name, "clone(p4).") {
+					return "only the clone's question is rewritten; got a store to " + e.Name
+				}
+			}
+			serve, setReply, repl, write := idx("p2.ServeDNS"), idx("(*github.com/miekg/dns.Msg).SetReply"), idx("(*dnssvc/internal/preupstream.Middleware).replaceResp"), idx("p3.WriteMsg")
+			if serve < 0 {
+				return "the rest of the pipeline is asked"
+			}
+			if a := o.Effects[serve].Args; len(a) != 3 || a[0] != "p1" || !strings.HasPrefix(a[1], "nonnil:nwrw(p3)") || a[2] != "nonnil:clone(p4)" {
+				return "the pipeline serves a clone of the request (the client's message keeps its own name) through a non-writer; got " + strings.Join(a, ",")
+			}
+			if f.B("serveerr") {
+				if write >= 0 || len(o.Ret) != 1 || o.Ret[0].Kind == an.KNil {
+					return "an error from the pipeline is returned and nothing is written"
+				}
+				return ""
+			}
+			if write < 0 || setReply < 0 || repl < 0 || !(serve < setReply && setReply < write && repl < write) {
+				return fmt.Sprintf("ServeDNS, then SetReply and replaceResp, then WriteMsg (calls at %d, %d, %d, %d): ID and question are restored for every response, with or without answers", serve, setReply, repl, write)
+			}
+			if a := o.Effects[setReply].Args; len(a) != 2 || a[0] != "nonnil:resp" || a[1] != "p4" {
+				return "the response made a reply to the client's own message; got SetReply(" + strings.Join(a, ",") + ")"
+			}
+			if a := o.Effects[repl].Args; len(a) != 3 || a[1] != "p4.Question[0].Name" || a[2] != "nonnil:resp" {
+				return "answer names replaced by the client's own name; got replaceResp(" + strings.Join(a, ",") + ")"
+			}
+			if a := o.Effects[write].Args; len(a) != 3 || a[0] != "p1" || a[1] != "p4" || a[2] != "nonnil:resp" {
+				return "the response written for the client's own request; got WriteMsg(" + strings.Join(a, ",") + ")"
+			}
+			if f.B("writeerr") != (len(o.Ret) == 1 && o.Ret[0].Kind != an.KNil) {
+				return "a write error is returned; got " + o.RetString()
 			}
 			return ""
 		},
